@@ -901,6 +901,10 @@ pub enum Lens {
     /// `n` records of the same length (the encoder then stores the length once)
     Equal { n: u16, len: u16 },
     Var(Vec<u32>),
+    /// `n` records of the same length with empty records inserted at the given places (per-mille of
+    /// the list; 0 = in front of everything): an empty record is legal (a read without qualities)
+    /// and interacts with the "all the same length" shortcut of the format
+    EqualWithEmpty { n: u16, len: u16, at: Vec<u16> },
 }
 
 #[derive(Clone, Debug, Serialize, Deserialize)]
@@ -923,8 +927,16 @@ impl FqzCase {
         let mut v: Vec<usize> = match &self.lens {
             Lens::Equal { n, len } => vec![*len as usize; (*n as usize).max(1)],
             Lens::Var(v) => v.iter().map(|l| *l as usize).collect(),
+            Lens::EqualWithEmpty { n, len, at } => {
+                let mut v = vec![(*len as usize).max(1); (*n as usize).max(1)];
+                for a in at {
+                    let i = (*a as usize % 1001) * (v.len() + 1) / 1001;
+                    v.insert(i.min(v.len()), 0);
+                }
+                v
+            }
         };
-        if !self.allow_zero {
+        if !self.allow_zero && !matches!(self.lens, Lens::EqualWithEmpty { .. }) {
             for l in v.iter_mut() {
                 if *l == 0 {
                     *l = 1;
@@ -991,9 +1003,10 @@ fn fqz_strategy(_tier: Tier) -> BoxedStrategy<FqzCase> {
         3 => (1u16..=60, proptest::sample::select(vec![1u16, 2, 3, 5, 36, 100, 128, 129, 151, 250])).prop_map(|(n, len)| Lens::Equal { n, len }),
         1 => (1u16..=3, 1000u16..=3000).prop_map(|(n, len)| Lens::Equal { n, len }),
         8 => proptest::collection::vec(one_len, 1..=40).prop_map(Lens::Var),
+        2 => (1u16..=12, proptest::sample::select(vec![1u16, 2, 5, 10, 36, 100]), proptest::collection::vec(prop_oneof![2 => Just(0u16), 2 => Just(1000u16), 3 => 0u16..=1000], 1..4)).prop_map(|(n, len, at)| Lens::EqualWithEmpty { n, len, at }),
     ];
     let nsym = prop_oneof![1 => Just(1u8), 6 => 2u8..=94, 1 => proptest::sample::select(vec![95u8, 128, 255, 0])];
-    (lens, 0u8..4, nsym, any::<u32>(), prop_oneof![9 => Just(false), 1 => Just(true)]).prop_map(|(lens, class, nsym, seed, allow_zero)| FqzCase { lens, class, nsym, seed, allow_zero, lit: None }).boxed()
+    (lens, 0u8..4, nsym, any::<u32>(), prop_oneof![1 => Just(false), 1 => Just(true)]).prop_map(|(lens, class, nsym, seed, allow_zero)| FqzCase { lens, class, nsym, seed, allow_zero, lit: None }).boxed()
 }
 
 pub fn check_fqz(c: &FqzCase) -> Verdict {
